@@ -126,10 +126,17 @@ func (env *hostileEnv) honestWrite(ctx context.Context, w int, key int) (string,
 // craft creates an entry signed by peer signer's instance identity, stored on
 // that peer's node, with the given links and clock time.
 func (env *hostileEnv) craft(ctx context.Context, signer int, logID string, payload []byte, next []cid.Cid, t int) (*entry.Entry, error) {
+	return env.craftRefs(ctx, signer, logID, payload, next, []cid.Cid{}, t)
+}
+
+func (env *hostileEnv) craftRefs(ctx context.Context, signer int, logID string, payload []byte, next, refs []cid.Cid, t int) (*entry.Entry, error) {
 	p := env.cl.W.Peers[signer]
 	id := p.DB.Identity()
+	if next == nil {
+		next = []cid.Cid{}
+	}
 	e, err := entry.CreateEntry(ctx, p.API, id, &entry.Entry{
-		LogID: logID, Payload: payload, Next: next, Refs: []cid.Cid{},
+		LogID: logID, Payload: payload, Next: next, Refs: refs,
 		Clock: entry.NewLamportClock(id.PublicKey, t),
 	}, nil)
 	if err != nil {
@@ -141,6 +148,10 @@ func (env *hostileEnv) craft(ctx context.Context, signer int, logID string, payl
 // craftValid creates a valid entry signed by the colluder with a clock time
 // above everything seen so far (keeps (time,id) pairs unique).
 func (env *hostileEnv) craftValid(ctx context.Context, payload []byte, next []cid.Cid) (*entry.Entry, error) {
+	return env.craftValidRefs(ctx, payload, next, []cid.Cid{})
+}
+
+func (env *hostileEnv) craftValidRefs(ctx context.Context, payload []byte, next, refs []cid.Cid) (*entry.Entry, error) {
 	t := env.ctime
 	for _, e := range env.tr.ents {
 		if e.Time > t {
@@ -148,7 +159,7 @@ func (env *hostileEnv) craftValid(ctx context.Context, payload []byte, next []ci
 		}
 	}
 	env.ctime = t + 1
-	return env.craft(ctx, env.C, env.cl.Addr, payload, next, env.ctime)
+	return env.craftRefs(ctx, env.C, env.cl.Addr, payload, next, refs, env.ctime)
 }
 
 // rehash stores e's current content on peer p's node and sets its hash.
